@@ -315,3 +315,15 @@ CHECKS["C14"] = dict(
           "violation key = form | element type | operand layouts | size classes | variant | symptom."),
     assumptions=["the installed LAPACK/OpenBLAS are the environment of the adaptor", "oracles are written in the harness (known Cholesky factor, Householder reconstruction, U*diag(s)*VT)", "g++ 12 -O0 ASan+UBSan, assertions enabled; OPENBLAS_NUM_THREADS=1"],
 )
+
+CHECKS["C15"] = dict(
+    title="FFTW adaptor", level="exploration", engine="E4",
+    claim=("Complete grid: D=1..3 (thorough adds D=4) x all extents over {1..4} ({1..5} thorough) x ALL 2^D masks of transformed dimensions x both signs x 49 ordered (input layout, output layout) pairs out-of-place + 7 layouts "
+           "in-place (contiguous, rotated, unrotated, transposed, padded sub-block, strided-by-2 block, sub-block of rotated). Because the DFT is linear, each configuration is decided on the COMPLETE BASIS (delta_k and i*delta_k for "
+           "every position k of the input view) against a direct O(N^2) evaluation of the unnormalised DFT along exactly the masked dimensions (exact == when all transformed extents are 1, 2 or 4, else 64*eps*N); plus a dense integer "
+           "input through dft_forward/dft_backward and the round trip = N_transformed * x; a distinct input must be bit-identical afterwards, output guards and sub-block padding must keep their sentinels."),
+    jobs=lambda tier: sharded("fftmc", tier, libs=["-lfftw3"]),
+    rule=("flat enumeration of (D, extents, mask, sign, input layout, output layout, in-place or not), each group in a forked child; see notes/C15.md for counts; evaluations = configurations; distinct_nontrivial = configurations with "
+          "at least one transformed extent >= 2. Outcome classes: correct | rejected (assertion in boost/multi) | violation."),
+    assumptions=["FFTW3 with FFTW_ESTIMATE is the environment", "operands are array_ref views inside guarded stores (owning fftw::array cannot carry guards; same base()/layout() path)", "g++ 12 -O0 ASan+UBSan, assertions enabled"],
+)
